@@ -7,6 +7,10 @@ def key_fn(case, obs, verdict):
     v = v[4:] if v.startswith("BAD:") else v
     if v.startswith("outcome:warm-up"):
         return "Gun.WarmUp:" + v
+    if v.startswith("outcome:aggregator-"):
+        return "Aggregator.Run:" + v
+    if v.startswith("outcome:factory-"):
+        return "plugin.NewFactory:" + v
     if v.startswith("outcome") or v.startswith("run-hang"):
         return "Engine.Run:" + v
     if v.startswith("wait-hang") or v.startswith("wait-early") or v.startswith("goroutines"):
@@ -26,8 +30,10 @@ def run(ctx):
         rule=("non-trivial: a component failure occurred, or a cancel was planned/happened, or the engine had >= 2 pools; "
               "distinct = distinct case lines (fault plan x cancel plan x pools)"),
         key_fn=key_fn, what_fn=what_fn,
-        translators=[("runasync", "RunAsyncGen.v"), ("grpcwarmup", "GrpcWarmUpGen.v"), ("gofn-runinst", "GoFnRunInstGen.v")],
-        bridge_files=["Gen/RunAsync_bridge.v", "Gen/GrpcWarmUp_bridge.v", "Gen/GoFnRunInst_bridge.v"],
+        translators=[("runasync", "RunAsyncGen.v"), ("grpcwarmup", "GrpcWarmUpGen.v"), ("gofn-runinst", "GoFnRunInstGen.v"),
+                     ("encaggr", "EncAggrGen.v"), ("plugconv", "PlugConvGen.v")],
+        bridge_files=["Gen/RunAsync_bridge.v", "Gen/GrpcWarmUp_bridge.v", "Gen/GoFnRunInst_bridge.v", "Gen/EncAggr_bridge.v",
+                      "Gen/PlugConv_bridge.v"],
         trusted=[
             "extraction: ExtrOcamlBasic only; OCaml driver ocaml/C05/main.ml (history tokens -> model events) + ocaml/common/conv.ml",
             "correspondence harness harness/cmd/hC05: real engine.Engine with fault-plan mocks; the receive order of the await loop, "
